@@ -341,4 +341,396 @@ Section Refine.
       + cbn [recompute_third p_files]. rewrite psums_recompute, Hincl. reflexivity.
       + intros g Hg. destruct (Hin g Hg) as [t [s [_ [Hs' [[r [Hr _]] _]]]]]. unfold res_of. rewrite Hs', Hr. discriminate.
   Qed.
+
+  (* ---------- first_one ---------- *)
+  Lemma first_one_fields save dk p f :
+    let p' := fst (first_one A fx save dk p f) in
+    p_files p' = p_files p /\ p_index p' = p_index p /\ p_lru p' = p_lru p /\ p_tincl p' = p_tincl p /\ p_terrs p' = p_terrs p.
+  Proof.
+    unfold first_one. destruct (aget dk f) as [data|]; [|cbn; auto].
+    destruct (aget (p_fsm p) f) as [s|]; [|cbn; auto].
+    destruct (contents_same A fx (s_contents s) data); cbn; auto.
+  Qed.
+
+  Lemma first_one_other save dk p f g : f <> g ->
+    aget (p_fsm (fst (first_one A fx save dk p f))) g = aget (p_fsm p) g.
+  Proof.
+    intros Hne. unfold first_one. destruct (aget dk f) as [data|].
+    - destruct (aget (p_fsm p) f) as [s|].
+      + destruct (contents_same A fx (s_contents s) data); cbn [fst set_fsm p_fsm]; [reflexivity|].
+        apply aget_aset_other. exact Hne.
+      + cbn [fst set_fsm p_fsm]. apply aget_aset_other. exact Hne.
+    - cbn [fst set_fsm p_fsm]. apply aget_aset_other. exact Hne.
+  Qed.
+
+  (* the unchanged-content shortcut is right unless the empty-file case strikes *)
+  Lemma contents_same_text idx t0 (s : fstruct A) p f data :
+    aget (p_fsm p) f = Some s -> good_file idx t0 s ->
+    contents_same A fx (s_contents s) data = true -> empty_hit_p A fx p f data = false -> t0 = data.
+  Proof.
+    intros Hs [[r [Hr [Ht _]]] Hc] Hsame Hemp. unfold contents_same in Hsame. unfold empty_hit_p in Hemp. rewrite Hs, Hr in Hemp.
+    destruct Hc as [Hc|Hc]; rewrite Hc in *.
+    - destruct (fix_empty fx); [discriminate|]. rewrite Hsame in Hemp. cbn [negb andb] in Hemp.
+      apply negb_false_iff in Hemp. rewrite <- Ht. apply (ok_tempty A HA); assumption.
+    - apply (ok_teqb A HA). exact Hsame.
+  Qed.
+
+  Lemma good_file_ext idx idx' t (s : fstruct A) :
+    (forall x, fmem x idx = fmem x idx') -> good_file idx t s -> good_file idx' t s.
+  Proof.
+    intros H [[r [Hr [Ht [Hrefs Hp]]]] Hc]. split; [|exact Hc]. exists r. repeat split; try assumption.
+    - rewrite Hrefs. apply refs_of_ext. intros. apply H.
+    - rewrite (ferrs_ext idx' idx); [exact Hp|]. intros. symmetry. apply H.
+  Qed.
+
+  (* the entry of f after the first pass on f, when the disk has text t *)
+  Lemma first_one_self dk p f t :
+    aget dk f = Some t ->
+    (forall s, aget (p_fsm p) f = Some s -> exists t0, good_file (p_index p) t0 s) ->
+    empty_hit_p A fx p f t = false ->
+    exists s', aget (p_fsm (fst (first_one A fx true dk p f))) f = Some s' /\ good_file (p_index p) t s'.
+  Proof.
+    intros Hd Hold Hemp. unfold first_one. rewrite Hd.
+    assert (Hnew : good_file (p_index p) t {| s_contents := Some t; s_res := Some (analyse A (p_index p) t) |}).
+    { split; [|right; reflexivity]. exists (analyse A (p_index p) t). unfold analyse. cbn. auto. }
+    destruct (aget (p_fsm p) f) as [s|] eqn:Es.
+    - destruct (contents_same A fx (s_contents s) t) eqn:Ec; cbn [fst set_fsm p_fsm].
+      + destruct (Hold s eq_refl) as [t0 Hg]. pose proof (contents_same_text (p_index p) t0 s p f t Es Hg Ec Hemp) as ->.
+        exists s. split; [exact Es|exact Hg].
+      + rewrite aget_aset_same. eexists. split; [reflexivity|exact Hnew].
+    - cbn [fst set_fsm p_fsm]. rewrite aget_aset_same. eexists. split; [reflexivity|exact Hnew].
+  Qed.
+
+  Lemma first_one_unchanged dk p f :
+    snd (first_one A fx true dk p f) = false -> fst (first_one A fx true dk p f) = p.
+  Proof.
+    unfold first_one. destruct (aget dk f) as [data|]; [|discriminate].
+    destruct (aget (p_fsm p) f) as [s|]; [|discriminate].
+    destruct (contents_same A fx (s_contents s) data); [reflexivity|discriminate].
+  Qed.
+
+  (* ---------- ReanalyseReferInfo keeps / re-establishes the first-pass part ---------- *)
+  Lemma reanalyse_good idx0 idx1 f t (s : fstruct A) :
+    (forall x, x <> f -> fmem x idx1 = fmem x idx0) ->
+    good_file idx0 t s -> good_file idx1 t (reanalyse_one A idx1 [f] s).
+  Proof.
+    intros Hidx [[r [Hr [Ht [Hrefs Hp]]]] Hc]. unfold reanalyse_one. rewrite Hr, Ht.
+    destruct (has6 (r_errs r) || refer_hit [f] (first A t)) eqn:E.
+    - split; [|exact Hc]. eexists. split; [reflexivity|]. cbn [r_text r_refs r_errs].
+      split; [reflexivity|]. split; [reflexivity|].
+      eapply reresolve_perm; [apply first_wf|exact Hp].
+    - apply orb_false_iff in E as [_ E]. pose proof (refer_hit_false f _ E) as Hne.
+      split; [|exact Hc]. exists r. repeat split; try assumption.
+      + rewrite Hrefs. apply refs_of_ext. intros x e Hin. symmetry. apply Hidx. eapply Hne. exact Hin.
+      + rewrite (ferrs_ext idx1 idx0); [exact Hp|]. intros x e Hin. apply Hidx. eapply Hne. exact Hin.
+  Qed.
+
+  Lemma reanalyse_all_fields p need :
+    let p' := reanalyse_all A p need in
+    p_files p' = p_files p /\ p_index p' = p_index p /\ p_lru p' = p_lru p /\ p_tincl p' = p_tincl p /\ p_terrs p' = p_terrs p.
+  Proof. cbn. auto. Qed.
+
+  Lemma reanalyse_all_fsm p need g :
+    aget (p_fsm (reanalyse_all A p need)) g = option_map (reanalyse_one A (p_index p) need) (aget (p_fsm p) g).
+  Proof. unfold reanalyse_all. cbn [set_fsm p_fsm]. apply aget_map_snd. Qed.
+
+  (* ---------- singleton batches: what HandleFileEventChanges reduces to ---------- *)
+  Definition lru_after (p2 : proj A) (f : file) : proj A :=
+    set_lru A p2 (match res_of A p2 f with Some _ => frem f (p_lru p2) | None => p_lru p2 end).
+
+  Lemma he_changed_eq dk p f :
+    handle_events A fx dk p [(f, KChanged)] =
+    let pc := first_one A fx true dk p f in
+    let p3 := lru_after (fst pc) f in
+    if snd pc then ((if fmem f (p_tincl p) then recompute_third A p3 else p3), true) else (p3, false).
+  Proof.
+    unfold handle_events, lru_after. cbn [fold_left classify_one fst snd h_again h_refer h_all h_third app is_nil negb].
+    unfold first_many. cbn [fold_left fst snd].
+    destruct (first_one A fx true dk p f) as [p2 c]. cbn [fst snd orb]. destruct c; reflexivity.
+  Qed.
+
+  Definition created_proj (p : proj A) (f : file) : proj A :=
+    {| p_files := fadd f (p_files p); p_index := fadd f (p_index p); p_fsm := p_fsm p;
+       p_lru := p_lru p; p_tincl := p_tincl p; p_terrs := p_terrs p |}.
+
+  Lemma he_created_eq dk p f : in_dir A f = true ->
+    handle_events A fx dk p [(f, KCreated)] =
+    (recompute_third A (reanalyse_all A (lru_after (fst (first_one A fx true dk (created_proj p f) f)) f) [f]), true).
+  Proof.
+    intros Hd. unfold handle_events, lru_after, created_proj. cbn [fold_left classify_one fst snd]. rewrite Hd.
+    cbn [h_again h_refer h_all h_third app is_nil negb fadd orb]. unfold first_many. cbn [fold_left fst snd].
+    destruct (first_one A fx true dk _ f) as [p2 c]. cbn [fst snd orb negb andb is_nil].
+    rewrite andb_false_r. reflexivity.
+  Qed.
+
+  Lemma he_deleted_eq dk p f : in_dir A f = true ->
+    handle_events A fx dk p [(f, KDeleted)] =
+    (recompute_third A (reanalyse_all A (set_lru A (remove_file A fx p f) (p_lru (remove_file A fx p f))) [f]), true).
+  Proof.
+    intros Hd. unfold handle_events. cbn [fold_left classify_one fst snd]. rewrite Hd.
+    cbn [h_again h_refer h_all h_third app is_nil negb fadd orb]. unfold first_many. cbn [fold_left fst snd negb andb is_nil].
+    reflexivity.
+  Qed.
+
+  Lemma set_lru_fields (p : proj A) l :
+    p_files (set_lru A p l) = p_files p /\ p_index (set_lru A p l) = p_index p /\ p_fsm (set_lru A p l) = p_fsm p /\
+    p_tincl (set_lru A p l) = p_tincl p /\ p_terrs (set_lru A p l) = p_terrs p.
+  Proof. cbn. auto. Qed.
+
+  (* good_proj does not look at the LRU *)
+  Lemma good_set_lru dk p l : good_proj dk p -> good_proj dk (set_lru A p l).
+  Proof. intros G. destruct G. constructor; assumption. Qed.
+
+  Lemma errs_of_set_lru p l g : errs_of A (set_lru A p l) g = errs_of A p g.
+  Proof. reflexivity. Qed.
+
+  (* ---------- the workspace file set after a disk change ---------- *)
+  Lemma dfiles_aset dk0 f t : in_dir A f = true -> dfiles (aset dk0 f t) = fadd f (dfiles dk0).
+  Proof.
+    intros Hd. apply sorted_ext; [apply dfiles_sorted|apply fadd_sorted, dfiles_sorted|].
+    intros x. rewrite fadd_in, !dfiles_in, aget_aset. destruct (f =? x) eqn:E.
+    - apply N.eqb_eq in E. subst x. split; [auto|]. intros _. split; [exact Hd|discriminate].
+    - split; [intros H; right; exact H|]. intros [->|H]; [rewrite N.eqb_refl in E; discriminate|exact H].
+  Qed.
+
+  Lemma dfiles_aset_present dk0 f t : in_dir A f = true -> aget dk0 f <> None -> dfiles (aset dk0 f t) = dfiles dk0.
+  Proof.
+    intros Hd Hp. rewrite dfiles_aset by exact Hd. apply fadd_id; [apply dfiles_sorted|]. apply dfiles_in. auto.
+  Qed.
+
+  Lemma dfiles_adel dk0 f : dfiles (adel dk0 f) = frem f (dfiles dk0).
+  Proof.
+    apply sorted_ext; [apply dfiles_sorted|apply frem_sorted, dfiles_sorted|].
+    intros x. rewrite frem_in, !dfiles_in, aget_adel. destruct (f =? x) eqn:E.
+    - apply N.eqb_eq in E. subst x. split; [intros [_ H]; congruence|intros [H _]; congruence].
+    - split; [intros H; split; [intros ->; rewrite N.eqb_refl in E; discriminate|exact H]|intros [_ H]; exact H].
+  Qed.
+
+  Definition nostale_p (p : proj A) : Prop :=
+    forall g r t, In g (p_files p) -> res_of A p g = Some r -> In (Some t) (r_refs r) -> In t (p_files p).
+
+  (* ---------- Changed f (didSave, watched change): disk f := t, f was there ---------- *)
+  Lemma he_changed dk0 p f t :
+    good_proj dk0 p -> in_dir A f = true -> aget dk0 f <> None -> empty_hit_p A fx p f t = false ->
+    let r := handle_events A fx (aset dk0 f t) p [(f, KChanged)] in
+    (nostale_p (fst r) -> good_proj (aset dk0 f t) (fst r)) /\
+    (snd r = false -> forall g, errs_of A (fst r) g = errs_of A p g).
+  Proof.
+    intros G Hd Hpres Hemp. cbn zeta. rewrite he_changed_eq. cbn zeta.
+    set (dk := aset dk0 f t).
+    assert (Hfin : In f (p_files p)) by (rewrite (gp_files _ _ G); apply dfiles_in; auto).
+    assert (Hdkf : aget dk f = Some t) by (apply aget_aset_same).
+    pose proof (first_one_fields true dk p f) as Hfld. cbn zeta in Hfld. destruct Hfld as [F1 [F2 [F3 [F4 F5]]]].
+    destruct (first_one_self dk p f t Hdkf) as [s' [Hs' Hg']].
+    { intros s Hs. destruct (gp_in _ _ G f Hfin) as [t0 [s0 [_ [Hs0 Hg0]]]]. rewrite Hs in Hs0. injection Hs0 as <-. exists t0. exact Hg0. }
+    { exact Hemp. }
+    set (p2 := fst (first_one A fx true dk p f)) in *.
+    assert (Hfiles : p_files p2 = dfiles dk).
+    { rewrite F1, (gp_files _ _ G). unfold dk. symmetry. apply dfiles_aset_present; assumption. }
+    assert (Hin2 : forall g, In g (p_files p2) ->
+              exists t1 s1, aget dk g = Some t1 /\ aget (p_fsm p2) g = Some s1 /\ good_file (p_index p2) t1 s1).
+    { intros g Hg. rewrite F2. destruct (N.eq_dec f g) as [<-|Hne].
+      - exists t, s'. auto.
+      - rewrite F1 in Hg. destruct (gp_in _ _ G g Hg) as [t1 [s1 [H1 [H2 H3]]]]. exists t1, s1.
+        unfold dk. rewrite aget_aset_other by exact Hne. unfold p2. rewrite first_one_other by exact Hne. auto. }
+    assert (Hout2 : forall g, ~ In g (p_files p2) -> aget (p_fsm p2) g = None).
+    { intros g Hg. rewrite F1 in Hg. assert (f <> g) by (intros <-; contradiction).
+      unfold p2. rewrite first_one_other by assumption. apply (gp_out _ _ G). exact Hg. }
+    assert (Hsup2 : forall g, In g (p_files p2) -> In g (p_index p2)).
+    { intros g. rewrite F1, F2. apply (gp_isup _ _ G). }
+    destruct (snd (first_one A fx true dk p f)) eqn:Esnd.
+    - (* re-analysed: the third pass runs because f is a known file *)
+      assert (Hm : fmem f (p_tincl p) = true) by (rewrite (gp_tincl _ _ G); apply fmem_in; exact Hfin).
+      rewrite Hm. cbn [fst snd]. split; [|discriminate].
+      intros Hns. apply good_after_third; try assumption.
+    - (* unchanged-content shortcut taken *)
+      cbn [fst snd]. pose proof (first_one_unchanged dk p f Esnd) as Hp2. fold p2 in Hp2.
+      split; [|intros _ g; unfold lru_after; rewrite errs_of_set_lru, Hp2; reflexivity].
+      intros _. unfold lru_after. apply good_set_lru. constructor; try assumption.
+      + rewrite Hp2. apply (gp_nostale _ _ G).
+      + rewrite Hp2. apply (gp_tincl _ _ G).
+      + rewrite Hp2. apply (gp_terrs _ _ G).
+  Qed.
+
+  Lemma fmem_fadd x f l : fmem x (fadd f l) = (x =? f) || fmem x l.
+  Proof.
+    destruct (fmem x (fadd f l)) eqn:E.
+    - apply fmem_in, fadd_in in E. symmetry. destruct E as [->|E]; [rewrite N.eqb_refl; reflexivity|].
+      apply fmem_in in E. rewrite E. apply orb_true_r.
+    - symmetry. apply orb_false_iff. apply fmem_false in E. rewrite fadd_in in E. split.
+      + apply N.eqb_neq. intros ->. apply E. left. reflexivity.
+      + apply fmem_false. intros H. apply E. right. exact H.
+  Qed.
+
+  Lemma fmem_frem x f l : fmem x (frem f l) = negb (x =? f) && fmem x l.
+  Proof.
+    destruct (fmem x (frem f l)) eqn:E.
+    - apply fmem_in, frem_in in E. destruct E as [E1 E2]. apply fmem_in in E2. rewrite E2.
+      apply N.eqb_neq in E1. rewrite E1. reflexivity.
+    - symmetry. apply fmem_false in E. rewrite frem_in in E. destruct (x =? f) eqn:E1; [reflexivity|]. cbn [negb andb].
+      apply fmem_false. intros H. apply E. split; [apply N.eqb_neq; exact E1|exact H].
+  Qed.
+
+  (* ---------- Created f (watched create): disk f := t ---------- *)
+  Lemma empty_hit_created p f t : empty_hit_p A fx (created_proj p f) f t = empty_hit_p A fx p f t.
+  Proof. reflexivity. Qed.
+
+  Lemma he_created dk0 p f t :
+    good_proj dk0 p -> in_dir A f = true -> empty_hit_p A fx p f t = false ->
+    let r := handle_events A fx (aset dk0 f t) p [(f, KCreated)] in
+    snd r = true /\ (nostale_p (fst r) -> good_proj (aset dk0 f t) (fst r)).
+  Proof.
+    intros G Hd Hemp. cbn zeta. rewrite (he_created_eq _ _ _ Hd). cbn [fst snd]. split; [reflexivity|]. intros Hns.
+    set (dk := aset dk0 f t) in *. set (p1 := created_proj p f) in *.
+    assert (Hdkf : aget dk f = Some t) by (apply aget_aset_same).
+    pose proof (first_one_fields true dk p1 f) as Hfld. cbn zeta in Hfld. destruct Hfld as [F1 [F2 [F3 [F4 F5]]]].
+    assert (Hidx : forall x, x <> f -> fmem x (p_index p1) = fmem x (p_index p)).
+    { intros x Hx. unfold p1, created_proj. cbn [p_index]. rewrite fmem_fadd. apply N.eqb_neq in Hx. rewrite Hx. reflexivity. }
+    destruct (first_one_self dk p1 f t Hdkf) as [s' [Hs' Hg']].
+    { intros s Hs. unfold p1, created_proj in Hs. cbn [p_fsm] in Hs.
+      destruct (in_dec N.eq_dec f (p_files p)) as [Hf|Hf].
+      - destruct (gp_in _ _ G f Hf) as [t0 [s0 [_ [Hs0 Hg0]]]]. rewrite Hs in Hs0. injection Hs0 as <-. exists t0.
+        apply (good_file_ext (p_index p)); [|exact Hg0]. intros x. unfold p1, created_proj. cbn [p_index]. rewrite fmem_fadd.
+        destruct (x =? f) eqn:E; [|reflexivity]. apply N.eqb_eq in E. subst x. cbn [orb]. apply fmem_in. apply (gp_isup _ _ G). exact Hf.
+      - rewrite (gp_out _ _ G f Hf) in Hs. discriminate. }
+    { exact Hemp. }
+    set (p2 := fst (first_one A fx true dk p1 f)) in *.
+    set (p3 := lru_after p2 f) in *.
+    assert (E3 : p_files p3 = p_files p2 /\ p_index p3 = p_index p2 /\ p_fsm p3 = p_fsm p2) by (cbn; auto).
+    destruct E3 as [E3a [E3b E3c]].
+    apply good_after_third.
+    - cbn [reanalyse_all set_fsm p_files]. rewrite E3a, F1. unfold p1, created_proj. cbn [p_files].
+      rewrite (gp_files _ _ G). unfold dk. symmetry. apply dfiles_aset. exact Hd.
+    - cbn [reanalyse_all set_fsm p_files p_index]. rewrite E3a, E3b, F1, F2. unfold p1, created_proj. cbn [p_files p_index].
+      intros g. rewrite !fadd_in. intros [->|Hg]; [left; reflexivity|right; apply (gp_isup _ _ G); exact Hg].
+    - intros g Hg. cbn [reanalyse_all set_fsm p_files] in Hg. rewrite E3a, F1 in Hg. unfold p1, created_proj in Hg. cbn [p_files] in Hg.
+      rewrite reanalyse_all_fsm. cbn [reanalyse_all set_fsm p_index]. rewrite E3b, E3c, F2.
+      destruct (N.eq_dec f g) as [<-|Hne].
+      + exists t, (reanalyse_one A (p_index p1) [f] s'). fold p2. rewrite Hs'. cbn [option_map].
+        split; [exact Hdkf|]. split; [reflexivity|].
+        apply (reanalyse_good (p_index p1)); [reflexivity|exact Hg'].
+      + apply fadd_in in Hg. destruct Hg as [->|Hg]; [contradiction|].
+        destruct (gp_in _ _ G g Hg) as [t1 [s1 [H1 [H2 H3]]]].
+        exists t1, (reanalyse_one A (p_index p1) [f] s1). unfold p2. rewrite first_one_other by exact Hne.
+        unfold p1 at 2, created_proj. cbn [p_fsm]. rewrite H2. cbn [option_map]. split; [|split; [reflexivity|]].
+        * unfold dk. rewrite aget_aset_other by exact Hne. exact H1.
+        * apply (reanalyse_good (p_index p)); [exact Hidx|exact H3].
+    - intros g Hg. cbn [reanalyse_all set_fsm p_files] in Hg. rewrite E3a, F1 in Hg. unfold p1, created_proj in Hg. cbn [p_files] in Hg.
+      rewrite fadd_in in Hg. rewrite reanalyse_all_fsm. rewrite E3c.
+      assert (Hne : f <> g) by (intros <-; apply Hg; left; reflexivity).
+      unfold p2. rewrite first_one_other by exact Hne. unfold p1, created_proj. cbn [p_fsm].
+      rewrite (gp_out _ _ G g); [reflexivity|]. intros H. apply Hg. right. exact H.
+    - exact Hns.
+  Qed.
+
+  (* ---------- Deleted f (watched delete): disk f removed ---------- *)
+  Lemma he_deleted dk0 p f :
+    good_proj dk0 p -> in_dir A f = true ->
+    let r := handle_events A fx (adel dk0 f) p [(f, KDeleted)] in
+    snd r = true /\ (nostale_p (fst r) -> good_proj (adel dk0 f) (fst r)).
+  Proof.
+    intros G Hd. cbn zeta. rewrite (he_deleted_eq _ _ _ Hd). cbn [fst snd]. split; [reflexivity|]. intros Hns.
+    set (p1 := remove_file A fx p f) in *.
+    assert (Hidx : forall x, x <> f -> fmem x (p_index p1) = fmem x (p_index p)).
+    { intros x Hx. unfold p1, remove_file. cbn [p_index]. destruct (fix_index fx); [|reflexivity].
+      rewrite fmem_frem. apply N.eqb_neq in Hx. rewrite Hx. reflexivity. }
+    apply good_after_third.
+    - cbn [reanalyse_all set_fsm set_lru p_files]. unfold p1, remove_file. cbn [p_files].
+      rewrite (gp_files _ _ G). symmetry. apply dfiles_adel.
+    - cbn [reanalyse_all set_fsm set_lru p_files p_index]. unfold p1, remove_file. cbn [p_files p_index].
+      intros g Hg. apply frem_in in Hg. destruct Hg as [Hne Hg]. apply (gp_isup _ _ G) in Hg.
+      destruct (fix_index fx); [apply frem_in; auto|exact Hg].
+    - intros g Hg. cbn [reanalyse_all set_fsm set_lru p_files] in Hg. unfold p1, remove_file in Hg. cbn [p_files] in Hg.
+      apply frem_in in Hg. destruct Hg as [Hne Hg]. rewrite reanalyse_all_fsm. cbn [set_lru p_fsm p_index reanalyse_all set_fsm].
+      destruct (gp_in _ _ G g Hg) as [t1 [s1 [H1 [H2 H3]]]].
+      exists t1, (reanalyse_one A (p_index p1) [f] s1). unfold p1 at 2, remove_file. cbn [p_fsm].
+      rewrite !aget_adel_other by (intros ->; apply Hne; reflexivity). rewrite H2. cbn [option_map]. split; [|split; [reflexivity|]].
+      + exact H1.
+      + apply (reanalyse_good (p_index p)); [exact Hidx|exact H3].
+    - intros g Hg. cbn [reanalyse_all set_fsm set_lru p_files] in Hg. unfold p1, remove_file in Hg. cbn [p_files] in Hg.
+      rewrite frem_in in Hg. rewrite reanalyse_all_fsm. cbn [set_lru p_fsm]. unfold p1, remove_file. cbn [p_fsm].
+      destruct (N.eq_dec f g) as [<-|Hne].
+      + rewrite aget_adel_same. reflexivity.
+      + rewrite aget_adel_other by exact Hne. rewrite (gp_out _ _ G g); [reflexivity|]. intros H. apply Hg. split; [congruence|exact H].
+    - exact Hns.
+  Qed.
+
+  (* ---------- a server start establishes the characterisation ---------- *)
+  Definition first_fold (save : bool) (dk : amap txt) (p : proj A) (l : list file) : proj A :=
+    fold_left (fun p f => fst (first_one A fx save dk p f)) l p.
+
+  Lemma first_many_fst save dk l : forall p c,
+    fst (fold_left (fun (pc : proj A * bool) f => let '(p', c) := first_one A fx save dk (fst pc) f in (p', snd pc || c)) l (p, c))
+    = first_fold save dk p l.
+  Proof.
+    induction l as [|f l IH]; intros p c; [reflexivity|]. cbn [fold_left first_fold fst snd].
+    destruct (first_one A fx save dk p f) as [p' c'] eqn:E. cbn [fst]. rewrite IH. reflexivity.
+  Qed.
+
+  Lemma first_fold_init dk idx : forall l p,
+    NoDup l -> (forall f, In f l -> aget (p_fsm p) f = None) -> (forall f, In f l -> aget dk f <> None) -> p_index p = idx ->
+    let p' := first_fold false dk p l in
+    p_files p' = p_files p /\ p_index p' = idx /\
+    (forall g, aget (p_fsm p') g =
+               if fmem g l then match aget dk g with
+                                | Some t => Some {| s_contents := None; s_res := Some (analyse A idx t) |}
+                                | None => None
+                                end
+               else aget (p_fsm p) g).
+  Proof.
+    induction l as [|f l IH]; intros p Hnd Hnone Hdk Hidx; cbn zeta.
+    - cbn. auto.
+    - apply NoDup_cons_iff in Hnd as [Hnin Hnd']. cbn [first_fold fold_left].
+      assert (Hp1 : fst (first_one A fx false dk p f) =
+                    match aget dk f with
+                    | Some t => set_fsm A p (aset (p_fsm p) f {| s_contents := None; s_res := Some (analyse A (p_index p) t) |})
+                    | None => fst (first_one A fx false dk p f)
+                    end).
+      { unfold first_one. destruct (aget dk f) as [t|] eqn:Ed; [|reflexivity].
+        rewrite (Hnone f (or_introl eq_refl)). reflexivity. }
+      destruct (aget dk f) as [t|] eqn:Ed; [|exfalso; exact (Hdk f (or_introl eq_refl) Ed)].
+      set (p1 := fst (first_one A fx false dk p f)) in *.
+      specialize (IH p1 Hnd').
+      assert (H1 : forall g, In g l -> aget (p_fsm p1) g = None).
+      { intros g Hg. rewrite Hp1. cbn [set_fsm p_fsm]. rewrite aget_aset_other by (intros ->; contradiction).
+        apply Hnone. right. exact Hg. }
+      assert (H2 : forall g, In g l -> aget dk g <> None) by (intros g Hg; apply Hdk; right; exact Hg).
+      assert (H3 : p_index p1 = idx) by (rewrite Hp1; cbn [set_fsm p_index]; exact Hidx).
+      specialize (IH H1 H2 H3). cbn zeta in IH. destruct IH as [I1 [I2 I3]].
+      fold (first_fold false dk p1 l). split; [rewrite I1, Hp1; reflexivity|]. split; [exact I2|].
+      intros g. rewrite I3. unfold fmem. cbn [existsb]. fold (fmem g l). destruct (g =? f) eqn:E.
+      + apply N.eqb_eq in E. subst g. cbn [orb]. apply fmem_false in Hnin. rewrite Hnin.
+        rewrite Hp1. cbn [set_fsm p_fsm]. rewrite aget_aset_same, Ed, Hidx. reflexivity.
+      + cbn [orb]. destruct (fmem g l); [reflexivity|]. rewrite Hp1. cbn [set_fsm p_fsm].
+        apply aget_aset_other. intros ->. rewrite N.eqb_refl in E. discriminate.
+  Qed.
+
+  Lemma init_good dk : good_proj dk (init_proj A fx dk).
+  Proof.
+    unfold init_proj. fold (dfiles dk). set (fl := dfiles dk).
+    set (p0 := {| p_files := fl; p_index := fl; p_fsm := []; p_lru := []; p_tincl := []; p_terrs := [] |}).
+    unfold first_many. rewrite first_many_fst.
+    pose proof (first_fold_init dk fl fl p0 (ssorted_nodup _ (dfiles_sorted dk))) as H. cbn zeta in H.
+    destruct H as [H1 [H2 H3]].
+    { intros f _. reflexivity. }
+    { intros f Hf. apply dfiles_in in Hf. tauto. }
+    { reflexivity. }
+    set (p1 := first_fold false dk p0 fl) in *.
+    apply good_after_third.
+    - rewrite H1. reflexivity.
+    - intros f. rewrite H1, H2. cbn [p0 p_files]. auto.
+    - intros f Hf. rewrite H1 in Hf. cbn [p0 p_files] in Hf. pose proof Hf as Hf'. apply dfiles_in in Hf'. destruct Hf' as [_ Hd].
+      destruct (aget dk f) as [t|] eqn:Ed; [|congruence]. exists t. eexists. split; [reflexivity|]. rewrite H3.
+      apply fmem_in in Hf. fold fl. rewrite Hf, Ed. split; [reflexivity|]. rewrite H2.
+      split; [|left; reflexivity]. eexists. split; [reflexivity|]. unfold analyse. cbn. auto.
+    - intros f Hf. rewrite H1 in Hf. cbn [p0 p_files] in Hf. rewrite H3. apply fmem_false in Hf. rewrite Hf. reflexivity.
+    - intros f r t Hf Hr Hin. rewrite H1 in *. cbn [p0 p_files] in *. unfold res_of in Hr. rewrite H3 in Hr.
+      pose proof Hf as Hf'. apply fmem_in in Hf'. rewrite Hf' in Hr. destruct (aget dk f) as [t0|]; [|discriminate].
+      cbn [s_res] in Hr. injection Hr as <-. unfold analyse in Hin. cbn [r_refs] in Hin. apply in_refs_of in Hin.
+      apply fmem_in. tauto.
+  Qed.
+
+  (* hence: any project satisfying the characterisation of disk dk shows, per file, a permutation of what a fresh start shows *)
+  Lemma good_fresh dk p f : good_proj dk p -> Permutation (errs_of A p f) (errs_of A (init_proj A fx dk) f).
+  Proof. intros G. apply (good_unique dk); [exact G|apply init_good]. Qed.
 End Refine.
